@@ -49,6 +49,20 @@ type postCase struct {
 	CWV       uint64 `json:"cwv,omitempty"`
 	CWT       uint64 `json:"cwt,omitempty"`
 	CKK       uint64 `json:"ckk,omitempty"`
+	// Reuse: ONE fusion object per kind, built from one *FusionConfig, is kept alive over these
+	// steps; before each step the caller edits that config (weights, K up and down) and the
+	// input maps grow / shrink (prefixes of V and T), so ranks not seen before appear. Every
+	// Combine is judged against the config values current at that call: the code reads
+	// f.config on every Combine, so an edit after construction is effective.
+	Reuse []postStep `json:"reuse,omitempty"`
+}
+
+type postStep struct {
+	WV uint64 `json:"wv"`
+	WT uint64 `json:"wt"`
+	KK uint64 `json:"kk"` // > 0
+	NV int    `json:"nv"` // Combine sees V[:min(NV, len(V))]
+	NT int    `json:"nt"`
 }
 
 // postDefaultMu keeps the "customise a default config, then use the defaults" sequence of one
@@ -287,6 +301,30 @@ func genPost(r *core.Rand, tier string) *postCase {
 	c.PermSeed = r.U64()
 	c.WV, c.WT, c.KK = genWeight(r), genWeight(r), genRRFK(r)
 	c.Len2Sweep = r.Chance(0.04)
+	if r.Chance(0.25) {
+		nv, nt := len(c.V), len(c.T)
+		grow := r.Bool()
+		steps := r.Range(2, 5)
+		for i := 0; i < steps; i++ {
+			st := postStep{WV: genWeight(r), WT: genWeight(r), KK: genRRFK(r)}
+			if i > 0 && r.Chance(0.3) { // same K, other inputs
+				st.KK = c.Reuse[i-1].KK
+			}
+			switch r.Pick(3, 2, 1) {
+			case 0: // monotone: growing (new ranks appear) or shrinking maps
+				f := float64(i+1) / float64(steps)
+				if !grow {
+					f = 1 - float64(i)/float64(steps)
+				}
+				st.NV, st.NT = int(f*float64(nv)+0.5), int(f*float64(nt)+0.5)
+			case 1:
+				st.NV, st.NT = r.Intn(nv+1), r.Intn(nt+1)
+			default:
+				st.NV, st.NT = nv, nt
+			}
+			c.Reuse = append(c.Reuse, st)
+		}
+	}
 	if r.Chance(0.2) {
 		c.CustomCfg = true
 		c.CWV, c.CWT, c.CKK = genWeight(r), genWeight(r), genRRFK(r)
@@ -625,6 +663,44 @@ func execPost(c *postCase) []string {
 			defaultsLine("after")
 		}()
 	}
+	if len(c.Reuse) > 0 {
+		// one config, one fusion object per kind, alive over all steps of the case
+		shared := &comet.FusionConfig{VectorWeight: 1, TextWeight: 1, K: 60}
+		kinds := [][2]string{{"wsum", "weighted_sum"}, {"rrf", "reciprocal_rank"}, {"max", "max"}, {"min", "min"}}
+		objs := make([]comet.Fusion, len(kinds))
+		guarded(&lines, "reuse constructors", func() string {
+			for i, fk := range kinds {
+				f, err := comet.NewFusion(comet.FusionKind(fk[1]), shared)
+				if err != nil {
+					panic(err)
+				}
+				objs[i] = f
+			}
+			return "op glue reuse => ok"
+		})
+		for _, st := range c.Reuse {
+			st := st
+			// the caller edits the config the fusions were built from …
+			shared.VectorWeight = math.Float64frombits(st.WV)
+			shared.TextWeight = math.Float64frombits(st.WT)
+			shared.K = math.Float64frombits(st.KK)
+			V, T := c.V[:min(max(st.NV, 0), len(c.V))], c.T[:min(max(st.NT, 0), len(c.T))]
+			svT, stT := join(entToks(V)), join(entToks(T))
+			for i, fk := range kinds {
+				i, fk := i, fk
+				if objs[i] == nil {
+					continue
+				}
+				// … and every call is judged against the values current at that call
+				head := fmt.Sprintf("fuse %s %016x %016x %016x%s /%s", fk[0], st.WV, st.WT, st.KK, svT, stT)
+				guarded(&lines, head, func() string {
+					vm, tm := mkMap(V), mkMap(T)
+					out := objs[i].Combine(vm, tm)
+					return fmt.Sprintf("op %s => %s /%s", head, mutTok(sameMap(vm, V) && sameMap(tm, T)), join(mapToks(out)))
+				})
+			}
+		}
+	}
 	postDefaultMu.RLock()
 	defer postDefaultMu.RUnlock()
 	defaults := c.WV == one && c.WT == one && c.KK == sixty
@@ -734,7 +810,7 @@ func nonTrivialPost(lines, replies []string) bool {
 func init() {
 	register(&core.Typed[postCase]{
 		StreamName: "post", Prop: "C19",
-		RuleText: "one case = a result list (0..300 entries; duplicate ids; random / lattice-with-ties / ascending-with-knees / all-equal / NaN,±Inf,±0,denormal,1e30 scores) + a pair of score maps (disjoint / nested / equal keys / random overlap / empty; distinct / tied / all-equal / special scores) + k, cut-off in Z (incl. ±2^63) + weights + K>0; in 1 case of 5 a config obtained from DefaultFusionConfig() is customised and used first, then DefaultFusion(), NewFusion(kind, nil) and DefaultFusionConfig() are evaluated and must still be (1, 1, 60); all 6 aggregations on the list and on a permutation of it, LimitResults, sanitizeK, Autocut, AutocutResults, mergeResults(+sort), 4 fusions, scoreMapToRanks are called; a case is non-trivial when at least two of {an aggregation/merge saw duplicate ids and returned >= 2 ids; a fusion saw overlapping but unequal key sets; autocut cut strictly inside the list; k truncated the list} hold; distinct = distinct request streams",
+		RuleText: "one case = a result list (0..300 entries; duplicate ids; random / lattice-with-ties / ascending-with-knees / all-equal / NaN,±Inf,±0,denormal,1e30 scores) + a pair of score maps (disjoint / nested / equal keys / random overlap / empty; distinct / tied / all-equal / special scores) + k, cut-off in Z (incl. ±2^63) + weights + K>0; in 1 case of 5 a config obtained from DefaultFusionConfig() is customised and used first, then DefaultFusion(), NewFusion(kind, nil) and DefaultFusionConfig() are evaluated and must still be (1, 1, 60); in 1 case of 4 one fusion object per kind is kept alive over 2-5 Combine calls while the *FusionConfig it was built from is edited between the calls (weights, K up and down) and the input maps grow / shrink, each call judged against the config current at that call; all 6 aggregations on the list and on a permutation of it, LimitResults, sanitizeK, Autocut, AutocutResults, mergeResults(+sort), 4 fusions, scoreMapToRanks are called; a case is non-trivial when at least two of {an aggregation/merge saw duplicate ids and returned >= 2 ids; a fusion saw overlapping but unequal key sets; autocut cut strictly inside the list; k truncated the list} hold; distinct = distinct request streams",
 		NCases: func(tier string) int {
 			if tier == "thorough" {
 				return 60000
@@ -743,7 +819,7 @@ func init() {
 		},
 		GenF:  genPost,
 		ExecF: execPost,
-		LenF:  func(c *postCase) int { return len(c.Hits) + len(c.V) + len(c.T) },
+		LenF:  func(c *postCase) int { return len(c.Hits) + len(c.V) + len(c.T) + len(c.Reuse) },
 		DropF: func(c *postCase, lo, hi int) *postCase {
 			n := *c
 			n.Hits, n.V, n.T = nil, nil, nil
@@ -763,6 +839,13 @@ func init() {
 			for _, e := range c.T {
 				if i < lo || i >= hi {
 					n.T = append(n.T, e)
+				}
+				i++
+			}
+			n.Reuse = nil
+			for _, st := range c.Reuse {
+				if i < lo || i >= hi {
+					n.Reuse = append(n.Reuse, st)
 				}
 				i++
 			}
